@@ -141,12 +141,15 @@ class MarkingDefinition(_STIXBase20, _MarkingsMixin):
             except KeyError:
                 raise ValueError("definition_type must be a valid marking type")
 
-            if 'created' in kwargs:
-                if _should_set_millisecond(kwargs['created'], marking_type):
-                    self._properties = copy.deepcopy(self._properties)
-                    self._properties.update([
-                        ('created', TimestampProperty(default=lambda: NOW, precision='millisecond')),
-                    ])
+            # A creation time taken from the clock has sub-millisecond digits;
+            # its text would be read back with millisecond precision (it
+            # contains a '.'), so it is kept at that precision from the start.
+            if 'created' not in kwargs or \
+                    _should_set_millisecond(kwargs['created'], marking_type):
+                self._properties = copy.deepcopy(self._properties)
+                self._properties.update([
+                    ('created', TimestampProperty(default=lambda: NOW, precision='millisecond')),
+                ])
 
             if not isinstance(kwargs['definition'], marking_type):
                 defn = _get_dict(kwargs['definition'])
